@@ -689,3 +689,75 @@ func ruleC02DraftKeywords(c *Ctx) {
 	})
 	c.R.Floor(rule, "reads of draft-specific keywords in the evaluator", n, 7)
 }
+
+// In 2020-12 an $id with a non-empty fragment is an error. It has to be refused before the $id becomes a base URI:
+// otherwise the resource is registered under the URI with its fragment, the fragmentless lookup that every
+// reference makes misses it, and "#/$defs/a" inside it is resolved in whatever the Loader returns for the
+// fragmentless URI instead of in the document itself.
+func ruleIDFragmentRefused(c *Ctx, rule string) {
+	n := 0
+	for _, fn := range c.Closure(rule, "RES").Minus(c.Closure(rule, "EV")).Sorted() {
+		core.EachInstr(fn, func(i ssa.Instruction) {
+			st, ok := i.(*ssa.Store)
+			if !ok {
+				return
+			}
+			fa, ok := st.Addr.(*ssa.FieldAddr)
+			if !ok || c.fieldName(fa.X.Type(), fa.Field) != "resolvedInfo.uri" {
+				return
+			}
+			rc, ok := st.Val.(*ssa.Call)
+			if !ok || core.CalleeKey(&rc.Call) != "net/url.URL.ResolveReference" {
+				return
+			}
+			n++
+			refused := false
+			for _, b := range fn.Blocks {
+				ifi, ok := b.Instrs[len(b.Instrs)-1].(*ssa.If)
+				if !ok || !core.Reachable(b, st.Block(), nil) {
+					continue
+				}
+				// (the test stands under the draft test: `draft == 2020 && fragment != ""`; the draft test, a step or two
+				// up the dominator tree, is what every path to the store passes)
+				near := false
+				for d, hops := b, 0; d != nil && hops < 4; d, hops = d.Idom(), hops+1 {
+					if d.Dominates(st.Block()) {
+						near = true
+						break
+					}
+				}
+				if !near {
+					continue
+				}
+				bo, ok := ifi.Cond.(*ssa.BinOp)
+				if !ok || (bo.Op != token.NEQ && bo.Op != token.EQL) {
+					continue
+				}
+				isFrag := false
+				for _, pair := range [][2]ssa.Value{{bo.X, bo.Y}, {bo.Y, bo.X}} {
+					if k, isK := constString(pair[1]); !isK || k != "" {
+						continue
+					}
+					if ld, isLd := pair[0].(*ssa.UnOp); isLd && ld.Op == token.MUL {
+						if fa2, isFA := ld.X.(*ssa.FieldAddr); isFA && isNamed(derefType(fa2.X.Type()), "net/url", "URL") && core.CanonFieldOf(fa2.X.Type(), fa2.Field) == "Fragment" {
+							isFrag = true
+						}
+					}
+				}
+				if !isFrag {
+					continue
+				}
+				nonEmpty := b.Succs[0]
+				if bo.Op == token.EQL {
+					nonEmpty = b.Succs[1]
+				}
+				if (blockReturnsErrorLocal(nonEmpty) || blockReturnsErrorDeepLocal(nonEmpty)) && c.guardedByDraft(ifi, "draft2020") {
+					refused = true
+				}
+			}
+			c.R.Check(refused, rule, fmt.Sprintf("%s:base-from-id#%d", core.FuncName(fn), n), c.pos(st), "under 2020-12 an $id with a fragment is refused before it becomes a base URI",
+				"an $id becomes the base URI of its subschema without a preceding test that, under 2020-12, its parsed URI has no fragment: the resource is registered under a URI with a fragment, fragmentless lookups miss it, and references inside it are resolved in another document")
+		})
+	}
+	c.R.Floor(rule, "places where an $id becomes a base URI", n, 1)
+}
